@@ -272,10 +272,10 @@ example : okT demoMerge.tree = true ∧ (restrict demoMerge ⟨1, false⟩ (flag
             links), nobjs, levels-listed, level-entries-valid, levels-in-tree-order, normal-levels-nonempty, depth-le-objects,
             level0-is-root (for a Machine root) (C08_render_levels, which also needs the root to be a normal object).
     Proved further below (A8): children-counts (C08_render_children_counts), root-is-machine and numa-exists (C08_render_top),
-    levels-cover-objects (C08_render_levels_cover), machine-only-at-root (C08_restrict_wf_partial).
+    levels-cover-objects (C08_render_levels_cover), type-depth-inverse (C08_render_type_depth_inverse), machine-only-at-root
+    (C08_restrict_wf_partial).
     NOT proved (still judged by the oracle wfCheck on every AFTER dump): the topology-level clauses
-            normal-level-types, type-depth-inverse, pu-level-deepest,
-            machine-only-at-root; and every clause about sets / memory / attributes that is not a link (sets-presence,
+            normal-level-types, pu-level-deepest; and every clause about sets / memory / attributes that is not a link (sets-presence,
             cpuset-is-disjoint-union-of-children, memory-child-shares-cpuset, memcache-nodeset, nodeset-decomposition,
             pu-allowed, numa-allowed, total-memory, cache-attrs, group-depth, siblings-ordered, *-unique, allowed-sets,
             not-filtered-out, type-in-range). -/
@@ -661,13 +661,18 @@ theorem C08_render_levels_cover (t : Tree) (ht : typedT t = true) (hr : isNormal
     topClause "levels-cover-objects" (render t h ex) (mkAux (render t h ex)) = true :=
   render_levels_cover t ht hr h ex
 
+/-- (4) **type-depth-inverse** for the rendering of ANY tree: the type → depth table is the inverse of the level list -/
+theorem C08_render_type_depth_inverse (t : Tree) (h : Hdr) (ex : RObj → Extra) :
+    topClause "type-depth-inverse" (render t h ex) (mkAux (render t h ex)) = true :=
+  render_type_depth_inverse t h ex
+
 /-- (4) **C08_restrict_wf_partial**: for an input whose tree is typed, has PUs as leaves, a Machine root and is `mergeSafe` (all
     consequences of WF and of the API fact about filters: C08_wf_implies_okT, C08_wf_mergeSafe), the topology
     after ANY restrict call — with NO hypothesis on the result — satisfies, besides the 7 link clauses of C08_restrict_links and
     the 9 level clauses of C08_restrict_levels: no-children-where-forbidden and children-counts (every object), root-is-machine,
     level0-is-root and machine-only-at-root (`machineOnce`: at most one Machine object, C08_wf_mergeSafe).
     Named _partial because the full `WF (afterDump …)` is not reached: still judged by wfCheck on the real AFTER dump are
-    normal-level-types, type-depth-inverse, pu-level-deepest,
+    normal-level-types, pu-level-deepest,
     numa-exists (reduced to the survival of one NUMA node: C08_restrict_numa_exists) and the set / memory / attribute clauses
     other than the proved set statements (SetsOK, PU / NUMA singletons, exactness). -/
 theorem C08_restrict_wf_partial (t : Topo) (flagsT : Nat) (s : CSet) (flags : Nat) (ex : RObj → Extra)
@@ -721,20 +726,20 @@ theorem C08_restrict_numa_exists (t : Topo) (flagsT : Nat) (s : CSet) (flags : N
 
 /-! ### A8: everything from `WF d` alone -/
 
-/-- the 12 object-level and 10 topology-level WF clauses that are PROVED for the topology after any restrict call -/
+/-- the 12 object-level and 11 topology-level WF clauses that are PROVED for the topology after any restrict call -/
 def provedObjClauses : List String :=
   ["id-is-position", "root-or-parent", "parent-kind", "normal-child-slot", "children-array", "special-list-heads",
    "special-list-links", "no-children-where-forbidden", "children-counts", "depth-by-type", "depth-increases", "in-its-level"]
 def provedTopClauses : List String :=
   ["nobjs", "levels-listed", "level-entries-valid", "levels-in-tree-order", "normal-levels-nonempty", "depth-le-objects",
-   "level0-is-root", "root-is-machine", "machine-only-at-root", "levels-cover-objects"]
+   "level0-is-root", "root-is-machine", "machine-only-at-root", "levels-cover-objects", "type-depth-inverse"]
 
 /-- **C08_restrict_from_wf_partial** — the summary statement, with NO hypothesis besides `WF d` (plus: the engine could rebuild a
     tree, and the API fact that PU / Machine are not filtered KEEP_STRUCTURE).  For every set and every flag word, with `T` the
     topology of the dump and `R` the model's result:
     (a) `R` satisfies again every tree hypothesis (SetsOK, typing, PUs are leaves, Machine root, mergeSafe, one Machine), so the
         statement applies to the next call too;
-    (b) the rendered result satisfies 12 object-level and 10 topology-level clauses of `WF` (`provedObjClauses`, `provedTopClauses`);
+    (b) the rendered result satisfies 12 object-level and 11 topology-level clauses of `WF` (`provedObjClauses`, `provedTopClauses`);
     (c) after a successful call by cpuset the PUs are exactly the previous PUs with os_index ∈ S, each still a singleton, and a
         NUMA node disappears only under REMOVE_CPULESS when CPU-less afterwards; by nodeset the mirror statements — all through
         level merging.
@@ -791,7 +796,7 @@ theorem C08_restrict_from_wf_partial (d : Dump) (h : WF d) (t : Tree) (ht : tree
     · exact (levels.1 o ho).2.2
   · intro c hc
     simp only [provedTopClauses, List.mem_cons, List.mem_nil_iff, or_false] at hc
-    rcases hc with rfl | rfl | rfl | rfl | rfl | rfl | rfl | rfl | rfl | rfl
+    rcases hc with rfl | rfl | rfl | rfl | rfl | rfl | rfl | rfl | rfl | rfl | rfl
     · exact levels.2.1
     · exact levels.2.2.1
     · exact levels.2.2.2.1
@@ -802,6 +807,7 @@ theorem C08_restrict_from_wf_partial (d : Dump) (h : WF d) (t : Tree) (ht : tree
     · exact part.2.1
     · exact part.2.2.2
     · exact render_levels_cover _ a1.2.1 a1.2.2 _ ex
+    · exact render_type_depth_inverse _ _ ex
   · intro p hp hret
     constructor
     · intro hb
